@@ -318,6 +318,10 @@ func (repo *Repository) ProcessHeader(ctx context.Context, header *wire.BlockHea
 	repo.Lock()
 	defer repo.Unlock()
 
+	if !targetBitsAreValid(header.Bits) {
+		return errors.Wrapf(ErrInvalidTarget, "invalid encoding 0x%08x", header.Bits)
+	}
+
 	if !repo.disableDifficulty && !header.WorkIsValid() {
 		return ErrNotEnoughWork
 	}
@@ -499,6 +503,32 @@ func (repo *Repository) ProcessHeader(ctx context.Context, header *wire.BlockHea
 	}
 
 	return nil
+}
+
+// targetBitsAreValid returns true if the compact "bits" value of a header encodes a positive
+// target that fits in 256 bits. Other encodings (negative, zero, overflow, or shorter than the
+// mantissa) can't be met by any hash and are not supported by the difficulty conversion functions.
+func targetBitsAreValid(bits uint32) bool {
+	exponent := bits >> 24
+	mantissa := bits & 0x007fffff
+
+	if bits&0x00800000 != 0 {
+		return false // negative
+	}
+
+	if mantissa == 0 {
+		return false // zero
+	}
+
+	if exponent < 3 {
+		return false // lower mantissa bytes truncated
+	}
+
+	if exponent > 34 || (exponent > 33 && mantissa > 0xff) || (exponent > 32 && mantissa > 0xffff) {
+		return false // overflow
+	}
+
+	return true
 }
 
 func (repo *Repository) sendBranchUpdate(branch, previousLongest *Branch) error {
